@@ -149,7 +149,7 @@ def check_exit(cx, chk):
                               "%s ignores the Result of a fallible call (`let _ =` / statement call): a failure would go unreported" % short(p),
                               cx.site(b, ds[0][0]))
     chk.ok("C15.exit", "generator Results", {"fallible_call_results_tracked": n})
-    chk.floor("C15.exit", "fallible call results tracked", n, 60)
+    chk.floor("C15.exit", "fallible call results tracked", n, 78)
 
 
 # ----------------------------------------------------------------- restrictions
@@ -186,6 +186,8 @@ def mentions_field(e, name):
     return any(s[0] == "field" and s[2] == name for s in walk(e))
 
 
+_GUARD = {}
+
 RESTRICTIONS = [
     ("fields inside a negative lookahead", lambda p, at, e: "NegativeLookahead" in p and has_atom(at, lambda x: is_call(x, "is_empty") and any(is_call(s, "get_fields") for s in walk(x)), False)),
     ("fields inside a positive lookahead", lambda p, at, e: "PositiveLookahead" in p and has_atom(at, lambda x: is_call(x, "is_empty") and any(is_call(s, "get_fields") for s in walk(x)), False)),
@@ -195,7 +197,7 @@ RESTRICTIONS = [
     ("@position on a plain override", lambda p, at, e: "generate_override_rule" in p and has_atom(at, lambda x: x[0] == "field" and x[2] == "position", True)),
     ("@string with @export", lambda p, at, e: has_atom(at, lambda x: x[0] == "field" and x[2] == "export", True) and has_atom(at, lambda x: x[0] == "field" and x[2] == "string", True)),
     ("a skipping Whitespace rule", lambda p, at, e: has_atom(at, lambda x: is_call(x, "eq") and any(s == ("const", "str", "Whitespace") for s in walk(x)), True) and has_atom(at, lambda x: x[0] == "field" and x[2] == "no_skip_ws", False)),
-    ("@memoize without Clone", lambda p, at, e: has_atom(at, lambda x: is_call(x, "contains") and any(s == ("const", "str", "Clone") for s in walk(x)), False) and has_atom(at, lambda x: x[0] == "field" and x[2] == "memoize", True)),
+    ("@memoize without Clone", lambda p, at, e: has_atom(at, lambda x: is_call(x, "contains") and any(s == ("const", "str", "Clone") for s in walk(x)), False) and "memoize" in _GUARD.get("flags", ())),
     ("non-ASCII case-insensitive literal", lambda p, at, e: has_atom(at, lambda x: is_call(x, "is_ascii"), False) and has_atom(at, lambda x: is_call(x, "is_some") and mentions_field(x, "insensitive"), True)),
     ("invalid code point", lambda p, at, e: is_call(e, "ok_or_else", "ok_or") and any(is_call(s, "from_u32") for s in walk(e))),
     ("include of a missing / @char / @extern rule", lambda p, at, e: is_call(e, "ok_or_else", "ok_or") and any(is_call(s, "find_map", "find") for s in walk(e)) and "IncludeRule" in p),
@@ -205,7 +207,11 @@ RESTRICTIONS = [
 def check_restrict(cx, chk):
     sites = err_sites(cx)
     for (name, pred) in RESTRICTIONS:
-        hits = [(p, b, bb) for (p, b, bb, at, e) in sites if pred(p, at, e)]
+        hits = []
+        for (p, b, bb, at, e) in sites:
+            _GUARD["flags"] = flags_guarding(b, bb)
+            if pred(p, at, e):
+                hits.append((p, b, bb))
         if hits:
             p, b, bb = hits[0]
             chk.ok("C15.restrict", name, {"restriction": name, "guarded_error_in": short(p), "site": cx.site(b, bb)})
@@ -239,7 +245,7 @@ def check_cached(cx, chk):
         evs = templates.events(cx, cg, b)
         for ev in evs:
             if ev["kind"] == "ident" and ev.get("text") == "CacheEntries":
-                sites["declares the cache field"] = (p, b, flag_reads_at(cx, b, lambda i, bb=ev["bb"]: i == bb))
+                sites["declares the cache field"] = (p, b, flags_guarding(b, ev["bb"]))
         # (2) memo body: emission of `cache_key`
             if ev["kind"] == "ident" and ev.get("text") == "cache_key" and "emits the cache lookup" not in sites:
                 pass
@@ -249,7 +255,7 @@ def check_cached(cx, chk):
             reads = set()
             for ev in evs:
                 if ev["kind"] == "ident" and ev.get("text") == "cache_key":
-                    reads |= flag_reads_at(cx, b, lambda i, bb=ev["bb"]: i == bb)
+                    reads |= flags_guarding(b, ev["bb"])
             sites["emits the cache lookup"] = (p, b, reads)
     # (3) Clone demanded
     for (p, b, bb, at, e) in err_sites(cx):
@@ -302,6 +308,8 @@ GEN_PANIC_TABLE = {
     # (fn key, kind, detail) -> reason
 }
 
+IDX = ("index", "assert:bounds")
+
 GEN_PANIC_REASONS = [
     # (predicate on (fnkey, kind, detail), reason)
     (lambda f, k, d: "generate_default_field" in f and k == "panic", "unreachable: an outer field that is absent from an arm is at least Optional (Choice::get_fields demotes One, C03.lattice)"),
@@ -314,13 +322,14 @@ GEN_PANIC_REASONS = [
     (lambda f, k, d: "HexaEscape" in f and k.startswith("assert:overflow"), "two hex digits: 15*16+15 = 255 fits u8"),
     (lambda f, k, d: "Utf8Escape" in f and k.startswith("assert:overflow"), "at most six hex digits: < 2^24 fits u32"),
     (lambda f, k, d: "StringLiteral" in f and "generate_inline_body" in f and k == "unwrap", "chars().next().unwrap() under chars().count() == 1"),
-    (lambda f, k, d: "generate_code_spec" in f and k == "assert:bounds" and ("Sequence" in f or "Choice" in f), "parts[0] / choices[0] under len() < 2 and non-empty (Sequence checks is_empty first; Choice always has >= 1 alternative by the grammar)"),
-    (lambda f, k, d: "generate_inline_body" in f and k == "assert:bounds" and ("Sequence" in f or "Choice" in f), "as generate_code_spec: index 0 under a length test"),
-    (lambda f, k, d: "generate_override_rule" in f and k == "assert:bounds", "fields[0] under fields.len() == 1 (checked by the caller)"),
-    (lambda f, k, d: "generate_code" in f and "CodegenRule" in f and k == "assert:bounds", "fields[0] guarded by fields.len() == 1 in the same condition (short-circuit)"),
-    (lambda f, k, d: "generate_impl_position" in f and k == "assert:bounds", "fields[0] guarded by fields.len() == 1 in the same condition (short-circuit)"),
-    (lambda f, k, d: "generate_parsed_struct_type" in f and k == "assert:bounds", "fields[0] under fields.len() == 1"),
-    (lambda f, k, d: "generate_parse_function" in f and k == "assert:bounds", "inner_fields[0] under inner_fields.len() == 1"),
+    (lambda f, k, d: "generate_code_spec" in f and k in IDX and ("Sequence" in f or "Choice" in f), "parts[0] / choices[0] under len() < 2 and non-empty (Sequence checks is_empty first; Choice always has >= 1 alternative by the grammar: Choice = choices:Sequence {...})"),
+    (lambda f, k, d: "generate_inline_body" in f and k in IDX and ("Sequence" in f or "Choice" in f), "as generate_code_spec: index 0 under a length test"),
+    (lambda f, k, d: "generate_override_rule" in f and k in IDX, "fields[0] under fields.len() == 1 (checked by the caller)"),
+    (lambda f, k, d: "generate_code" in f and ("CodegenRule" in f or "Rule::generate_code" in f) and k in IDX, "fields[0] guarded by fields.len() == 1 in the same condition (short-circuit)"),
+    (lambda f, k, d: "generate_impl_position" in f and k in IDX, "fields[0] guarded by fields.len() == 1 in the same condition (short-circuit)"),
+    (lambda f, k, d: "generate_parsed_struct_type" in f and k in IDX, "fields[0] under fields.len() == 1"),
+    (lambda f, k, d: "generate_parse_function" in f and k in IDX, "inner_fields[0] under inner_fields.len() == 1"),
+    (lambda f, k, d: "generate_result_converter" in f and k in IDX, "fields[0] under fields.len() == 1"),
     (lambda f, k, d: k == "assert:overflow_Add" and "enumerate" in d, "iterator bookkeeping"),
 ]
 
@@ -337,6 +346,7 @@ def check_panic(cx, chk):
     cg = cx.codegen
     n = 0
     fns = gen_reachable(cx)
+    has_unsafe = any(u["user"] and not u["span"]["exp"] and "::grammar::generated::" not in u["fn"] for u in cg.j["unsafe_blocks"])
     for p in fns:
         b = cx.body(cg, p)
         if "fmt::Debug" in p or "Clone" in short(p):
@@ -344,6 +354,10 @@ def check_panic(cx, chk):
         for i, kind, t in c04.panic_sites(b):
             if t["k"] == "call" and t.get("fn_exp") and kind.startswith("diverges") and "assert_failed" not in kind:
                 continue
+            if kind == "diverges:process::exit":
+                continue     # deliberate exit of run_exit_on_error (C15.exit), not a panic
+            if kind in ("assert:misaligned", "assert:nullptr") and not has_unsafe:
+                continue     # rustc's debug pointer checks inside std/macro expansions; the crate has no unsafe code of its own
             q = mir.qself(p.split("::{closure")[0])
             fkey = ("%s::%s" % (last(q[0]), q[2])) if q else short(p)
             if "{closure" in p:
@@ -368,7 +382,7 @@ def check_panic(cx, chk):
                 chk.violation("C15.panic", tag, "panic-capable construct (%s) in the generator with no recognised guard and no justification "
                               "entry: a grammar could make the compiler panic instead of returning an error" % kind, cx.site(b, i),
                               {"detail": detail})
-    chk.floor("C15.panic", "panic-capable sites examined in the generator", n, 20)
+    chk.floor("C15.panic", "panic-capable sites examined in the generator", n, 23)
 
 
 # ----------------------------------------------------------------- identifiers
@@ -389,12 +403,31 @@ def check_ident(cx, chk):
                 sinks.append((p, b, i, t))
     validated = 0
     unvalidated = []
+    import ast as _ast
     for (p, b, i, t) in sinks:
-        # is there any validator (a call whose result guards this site) on the string?
         at = b.atoms(i)
-        guard = [e for (e, v, d) in at if any(is_call(s, "is_xid_start", "is_xid_continue", "is_ident", "is_valid_ident", "is_alphabetic", "is_alphanumeric", "all", "parse_str", "validate_ident") for s in walk(e))]
+        guard = [e for (e, v, d) in at if any(is_call(s_, "is_xid_start", "is_xid_continue", "is_ident", "is_valid_ident", "is_alphabetic", "is_alphanumeric", "parse_str", "validate_ident") for s_ in walk(e))]
         if guard:
             validated += 1
+            continue
+        e = norm(b.expr_op(t["args"][0]))
+        tmpl = None
+        for s_ in walk(e):
+            if s_[0] == "const" and isinstance(s_[2], str) and s_[2].startswith('b"'):
+                try:
+                    tmpl = _ast.literal_eval(s_[2])
+                except Exception:
+                    tmpl = None
+        prefix = ""
+        if tmpl and tmpl[0] < 0x80:
+            prefix = tmpl[1:1 + tmpl[0]].decode("utf-8", "replace")
+        # a literal prefix that starts an identifier + interpolations made of identifier characters (AST `Identifier`
+        # fields are {IdentifierChar}+ over [A-Za-z0-9_]; enumerate() indices are digits) cannot be rejected by Ident::new
+        srcs_ok = all((a_[0] == "field" and a_[2] in ("name", "typ", "rule", "0")) or a_[0] in ("param", "upvar") or a_[0] == "agg"
+                      for s_ in walk(e) if is_call(s_, "new_display") for a_ in [s_[2][0]])
+        if prefix and (prefix[0].isalpha() or prefix[0] == "_") and prefix != "r#":
+            validated += 1
+            chk.ok("C15.ident", "%s %r" % (short(p), prefix), {"fn": short(p), "template_prefix": prefix, "why": "literal identifier-start prefix + identifier-character interpolations"})
         else:
             unvalidated.append((p, b, i, t))
     # safe_ident's keyword table
@@ -427,15 +460,21 @@ def check_ident(cx, chk):
                 chk.violation("C15.ident", "keyword-unescaped %s" % k,
                               "`%s` cannot be a raw identifier and is emitted verbatim: a rule/field named `%s` yields code that does not compile" % (k, k))
     if unvalidated:
-        srcs = sorted({short(p) for (p, b, i, t) in unvalidated})
-        chk.violation("C15.ident", "unvalidated-identifier-sinks",
-                      "grammar-provided names (rule, field, type, include, @check/@extern path parts, derives, user context type) reach the "
-                      "panicking identifier constructors (format_ident!/Ident::new) in %d places without any validation: names that are not "
-                      "Rust identifiers (e.g. `1a`, `foo bar` inside @check(..)) make the compiler panic instead of returning an error"
-                      % len(unvalidated), cx.site(unvalidated[0][1], unvalidated[0][2]), {"functions": srcs})
+        byfn = {}
+        for (p, b, i, t) in unvalidated:
+            q = mir.qself(p.split("::{closure")[0])
+            key = ("%s::%s" % (last(q[0]), q[2])) if q else short(p.split("::{closure")[0])
+            byfn.setdefault(key, []).append((p, b, i, t))
+        for key, lst in sorted(byfn.items()):
+            p, b, i, t = lst[0]
+            chk.violation("C15.ident", "unvalidated-identifier-sink %s" % key,
+                          "%s builds identifiers from grammar/configuration strings (rule, field, type, include, @check/@extern path parts, "
+                          "derives, user context type) with the panicking constructors format_ident!/Ident::new and no validation: a name that "
+                          "is not a Rust identifier (e.g. rule `1a`, `@check(foo bar)`) makes the compiler panic instead of returning an error" % key,
+                          cx.site(b, i), {"sites": len(lst)})
     else:
         chk.ok("C15.ident", "identifier sinks", {"sinks": len(sinks), "validated": validated})
-    chk.floor("C15.ident", "identifier construction sites", len(sinks), 15)
+    chk.floor("C15.ident", "identifier construction sites", len(sinks), 21)
 
 
 # ----------------------------------------------------------------- recursion
@@ -537,11 +576,44 @@ def check_rec(cx, chk):
                           "grammar tree, so `A = >A;` (or a longer include cycle) overflows the stack" % names[:6], cx.site(b, i))
         else:
             chk.ok("C15.rec", "scc " + "+".join(names[:3]), {"cycle": names[:8], "kind": "structural recursion over the AST (bounded by the grammar text's nesting)"})
-    chk.floor("C15.rec", "recursive components of the generator", n, 2)
+    chk.floor("C15.rec", "recursive components of the generator", n, 5)
     # depth of the front end: recursive descent without a depth bound
-    chk.violation("C15.rec", "front-end recursion depth",
-                  "the bootstrapped front end and the generator recurse once per nesting level of the grammar text with no depth bound: "
-                  "deeply nested grammar text (e.g. 200000 parentheses) overflows the stack and aborts the process")
+    boot = [i_ for i_ in cx.instances() if i_.name == "bootstrap"]
+    if not boot:
+        chk.anchor_missing("C15.rec", "bootstrapped front end")
+    else:
+        inst = boot[0]
+        radj = {}
+        for r, p in inst.rule_fns.items():
+            tgt = set()
+            for q in [p] + [x for x in inst.fns if x.startswith(inst.prefix + "::" + r + "_impl::") or x.startswith(p + "::{closure")]:
+                if "mir" not in inst.fns[q]:
+                    continue
+                bq = cx.body(inst.crate, q)
+                for _, t in bq.calls():
+                    f = t["func"]
+                    if not f.get("indirect") and mir.strip_generics(f["path"]).startswith(inst.prefix + "::parse_") and last(f["path"])[6:] in inst.rule_fns:
+                        tgt.add(last(f["path"])[6:])
+            radj[r] = tgt
+        # is some rule reachable from itself?
+        def reach(r):
+            seen, st = set(), list(radj.get(r, ()))
+            while st:
+                x = st.pop()
+                if x in seen:
+                    continue
+                seen.add(x)
+                st.extend(radj.get(x, ()))
+            return seen
+        rec_rules = sorted(r for r in radj if r in reach(r))
+        depth_guard = any("depth" in (n or "").lower() for p in inst.fns for n in (cx.body(inst.crate, p).local_name.values() if "mir" in inst.fns[p] else ()))
+        if rec_rules and not depth_guard:
+            chk.violation("C15.rec", "front-end recursion depth",
+                          "the bootstrapped front end is a recursive descent parser whose rules %s recurse once per nesting level of the grammar "
+                          "text with no depth bound (and the generator recurses over the resulting tree): deeply nested grammar text (e.g. 200000 "
+                          "parentheses) overflows the stack and aborts the process" % rec_rules[:6])
+        else:
+            chk.ok("C15.rec", "front end", {"recursive_rules": rec_rules, "depth_guard": depth_guard})
 
 
 def run(cx, chk):
